@@ -160,4 +160,3 @@ func FindingOpen(id string) bool {
 	})
 	return knownOpen[id]
 }
-
